@@ -539,8 +539,10 @@ def _node_kinds(run) -> Dict[str, H.Rec]:
     cfg = cfg_of(init, p)
     run.use_cfg(cfg)
     kinds = H.derive_node_kinds(p, cfg)
-    run.extra['c01_node_kinds'] = sorted('fields=%s,is_var=%s,is_complex=%s,num_fields=%s' % k for k in kinds)
-    return H.kind_records(kinds)
+    recs = H.kind_records(kinds)
+    run.extra['c01_node_kinds'] = sorted('fields=%s,is_var=%s,is_complex=%s,num_fields=%s' % k[:4] for k in kinds)
+    run.extra['c01_node_kind_attrs'] = {nm: {a: repr(v) for a, v in sorted(r.attrs.items())} for nm, r in sorted(recs.items())}
+    return recs
 
 
 def _resolver(p, f: Func):
@@ -770,26 +772,52 @@ def r8_pruning(run):
     import itertools
     cases = 0
     bad = None
+    undetermined = None   # first sibling set on which the region's outcome cannot be evaluated
     for n in (1, 2, 3):
         for combo in itertools.product(lits, repeat=n):
             for incoming in (True, False):
                 env = {nodes_param: list(combo), FLAG: incoming}
-                kind, _ = H.Interp(E, gen.qual, watch={FLAG}).block(region, env)
+                try:
+                    kind, _ = H.Interp(E, gen.qual, watch={FLAG}).block(region, env)
+                except UnknownIdiom as e:
+                    if undetermined is None:
+                        undetermined = '%s (siblings %s)' % (e, list(combo))
+                    continue
                 if kind != 'fall':
                     continue  # nothing is generated for this level
                 out = env.get(FLAG, H.UNK)
                 if out is H.UNK:
-                    raise UnknownIdiom('%s: value of %s after the pruning region is not determined for siblings %s' % (gen.qual, FLAG, list(combo)))
+                    if undetermined is None:
+                        undetermined = '%s: value of %s after the pruning region is not determined for siblings %s' % (
+                            gen.qual, FLAG, list(combo))
+                    continue
                 cases += 1
                 allowed = incoming and (n == 1 or not any(r.attrs['is_var'] for r in combo))
                 if H.truth(out) and not allowed and bad is None:
                     bad = (list(combo), incoming)
+    # A sibling set on which the flag provably stays true although a field
+    # sibling exists is a verdict by itself; sets the evaluator cannot decide
+    # (an attribute whose value the constructor walk does not determine) only
+    # matter when no such set was found.
+    if bad is None and undetermined is not None:
+        raise UnknownIdiom(undetermined)
     if cases == 0:
         raise UnknownIdiom('%s: the pruning region never falls through' % gen.qual)
     run.extra['c01_pruning_cases'] = cases
     assigns = [n for s in region for n in walk_self(s) if isinstance(n, (ast.Assign, ast.AugAssign, ast.AnnAssign))
                and any(isinstance(t, ast.Name) and t.id == FLAG for t in (n.targets if isinstance(n, ast.Assign) else [n.target]))]
     construct = assigns[-1] if assigns else '%s (never updated)' % FLAG
+    if assigns and getattr(assigns[-1], 'value', None) is not None:
+        # name the predicate: locals read by the assigned value, with their (last) definition in the region
+        reads = [x.id for x in ast.walk(assigns[-1].value) if isinstance(x, ast.Name) and x.id not in (FLAG, nodes_param)]
+        defs = []
+        for nm in dict.fromkeys(reads):
+            d = [a for s_ in region for a in walk_self(s_) if isinstance(a, ast.Assign) and len(a.targets) == 1
+                 and isinstance(a.targets[0], ast.Name) and a.targets[0].id == nm]
+            if d:
+                defs.append(short(d[-1], 100))
+        if defs:
+            construct = '%s [%s]' % (short(assigns[-1], 80), '; '.join(defs))
     run.check(bad is None, 'the pruning flag stays true only if it was true on entry and the level has one node or only literal nodes '
               '(%d sibling sets x incoming values evaluated)' % cases, gen, construct,
               where=gen.loc(assigns[-1]) if assigns else gen.loc(),
@@ -2920,6 +2948,439 @@ def r14_find_segments(run):
                               "'/files//a' under /files/{p:path} must give p='/a'")
 
 
+# ---------------------------------------------------------------------------
+# R15 the multi-segment decision reads the converter's flag, not its type
+# ---------------------------------------------------------------------------
+
+FLAG_ATTR = 'CONSUME_MULTIPLE_SEGMENTS'   # documented class attribute of converters: public contract
+PREDICATE_ANCHOR = 'falcon.routing.converters._consumes_multiple_segments'
+
+
+def _flag_readers(p) -> Tuple[List[Func], List[Tuple[Func, ast.AST]]]:
+    """(predicates, inline reads): functions of falcon.routing.* whose code
+    reads the flag -- `<x>.CONSUME_MULTIPLE_SEGMENTS` or the attribute name as
+    a string constant (getattr) -- split into one-argument functions (the
+    decision as a predicate of the converter) and anything else."""
+    preds: List[Func] = []
+    inline: List[Tuple[Func, ast.AST]] = []
+    for mname, mod in sorted(p.modules.items()):
+        if not (mname == 'falcon.routing' or mname.startswith('falcon.routing.')):
+            continue
+        for f in mod.all_funcs:
+            reads = [n for n in walk_self(f.node)
+                     if (isinstance(n, ast.Attribute) and n.attr == FLAG_ATTR and isinstance(n.ctx, ast.Load))
+                     or (isinstance(n, ast.Constant) and n.value == FLAG_ATTR)]
+            if not reads:
+                continue
+            prms = [x for x in f.params() if x not in ('self', 'cls')]
+            a = f.node.args
+            if len(prms) == 1 and not (a.vararg or a.kwarg or a.kwonlyargs) and isinstance(f.node, ast.FunctionDef):
+                preds.append(f)
+            else:
+                inline.append((f, reads[0]))
+    return preds, inline
+
+
+def r15_multi_segment_flag(run):
+    """"A trailing path-converter swallows the rest": whether a field consumes
+    the remaining segments is decided by the CONSUME_MULTIPLE_SEGMENTS
+    attribute of whatever was registered in the converter map -- any class with
+    a convert() method may be registered, it need not derive from
+    BaseConverter.  The predicate the router consults is interpreted on model
+    converters (a plain class and a BaseConverter subclass, each with the flag
+    set / unset / absent, as class and as instance) and on the built-in ones:
+    its truth value must be the flag's (absent = False) and it must not raise.
+    A gate on the converter's type (isinstance / issubclass / type() is) that
+    changes the answer for one of them is a violation; class-vs-instance
+    plumbing that does not is silent.  W: options.converters['rest'] = a plain
+    class with CONSUME_MULTIPLE_SEGMENTS = True: '/static/{tail:rest}' no
+    longer matches '/static/a/b', and '/static/css' yields tail='c/s/s'."""
+    p = run.project
+    preds, inline = _flag_readers(p)
+    named = p.funcs.get(PREDICATE_ANCHOR)     # declared anchor: today's name of the predicate, should it stop reading the flag
+    if named is not None and named not in preds:
+        if len([x for x in named.params() if x not in ('self', 'cls')]) != 1:
+            raise UnknownIdiom('%s no longer takes exactly the converter' % named.qual)
+        preds.append(named)
+    if inline:
+        f, n = inline[0]
+        raise UnknownIdiom('%s reads %s outside a one-argument predicate of the converter (%s): not modelled' % (f.qual, FLAG_ATTR, short(n, 60)))
+    if not preds:
+        raise AnchorError('no function of falcon.routing reads %s' % FLAG_ATTR)
+    gen = p.func(ROUTER + '._generate_ast')
+    router = p.cls(ROUTER)
+    users: Dict[str, List[str]] = {}
+    for m in router.methods.values():
+        for g in [m] + list(m.nested.values()):
+            for c in walk_self(g.node):
+                if isinstance(c, ast.Call):
+                    t = p.callee(g, c)
+                    if isinstance(t, Func) and t in preds:
+                        users.setdefault(t.qual, []).append(g.qual)
+    if not any(gen.qual in v for v in users.values()):
+        raise AnchorError('%s does not consult a predicate reading %s' % (gen.qual, FLAG_ATTR))
+    run.extra['c01_multi_segment_predicates'] = {k: sorted(set(v)) for k, v in sorted(users.items())}
+    base = p.cls(CONVERTERS + '.BaseConverter')
+    table = _builtin_converters(p)
+    W = ("router.options.converters['rest'] = a class with CONSUME_MULTIPLE_SEGMENTS = True that does not derive from BaseConverter: "
+         "'/static/{tail:rest}' stops matching '/static/a/b' and find('/static/css') yields tail='c/s/s'")
+    for pred in preds:
+        if pred.qual not in users:
+            continue   # not consulted by the router
+        run.use(pred)
+        I = H.Concrete(p, pred.qual)
+        MC, MO = H.ModelClass, H.ModelObj
+        models = [
+            ('a plain class (not a BaseConverter) with %s = True' % FLAG_ATTR, MC('DuckMulti', (), {FLAG_ATTR: True})),
+            ('a BaseConverter subclass with %s = True' % FLAG_ATTR, MC('DerivedMulti', (base.qual,), {FLAG_ATTR: True})),
+            ('a plain class with %s = False' % FLAG_ATTR, MC('DuckSingle', (), {FLAG_ATTR: False})),
+            ('a plain class without %s' % FLAG_ATTR, MC('DuckPlain', (), {})),
+            ('a BaseConverter subclass that does not override %s' % FLAG_ATTR, MC('DerivedPlain', (base.qual,), {})),
+        ]
+        groups = {'user': [], 'builtin': []}
+        for text, mc in models:
+            groups['user'].append((text, mc, mc))
+            groups['user'].append(('an instance of ' + text, MO(mc), mc))
+        for ident, cls in sorted(table.items()):
+            groups['builtin'].append(('the class %s' % cls.name, H.ClassVal(cls), H.ClassVal(cls)))
+            groups['builtin'].append(('an instance of %s' % cls.name, H.CObj(cls), H.ClassVal(cls)))
+        gates = [c for c in walk_self(pred.node) if isinstance(c, ast.Call) and isinstance(c.func, ast.Name)
+                 and c.func.id in ('isinstance', 'issubclass', 'type')]
+        gates += [c for c in walk_self(pred.node) if isinstance(c, ast.Attribute) and c.attr in ('__class__', '__mro__', '__bases__')]
+        rets = [r for r in walk_self(pred.node) if isinstance(r, ast.Return)]
+        for gname, cases in sorted(groups.items()):
+            bad: List[str] = []
+            for text, value, klass in cases:
+                found, flag = I.lookup_attr(klass, FLAG_ATTR)
+                want = I.truth(flag) if found else False
+                I.steps = 0
+                try:
+                    got = I.call_func(pred, [value], {})
+                except H.CRaise as e:
+                    bad.append('%s: raises %s (the flag is %s)' % (text, e.qual.rsplit('.', 1)[-1], flag if found else 'absent'))
+                    continue
+                if I.truth(got) != want:
+                    bad.append('%s: treated as %s, its flag says %s' % (text, 'multi-segment' if I.truth(got) else 'single-segment',
+                                                                      'multi-segment' if want else 'single-segment'))
+            construct = ' ; '.join(dict.fromkeys(short(g, 70) for g in gates)) if (bad and gates) else \
+                ' ; '.join(dict.fromkeys(short(r, 90) for r in rets)) or pred.name
+            run.check(not bad, '%s answers with the %s attribute of the registered converter (absent = False) for %s -- %d cases; the '
+                      "converter's type plays no part" % (pred.name, FLAG_ATTR,
+                                                          'user-defined converters, derived from BaseConverter or not' if gname == 'user'
+                                                          else 'every built-in converter', len(cases)),
+                      pred, '%s [%s]' % (construct, gname), where=pred.loc(gates[0] if (bad and gates) else None),
+                      witness=bad[:10] if bad else None, runtime_witness=W)
+
+
+# ---------------------------------------------------------------------------
+# R16 the text the validator accepted is the text the node stores
+# ---------------------------------------------------------------------------
+
+class _GroupText:
+    """One way a value is computed from a group of the field-expression match:
+    `group`, `text` (the expression with the group read shown as <group>),
+    `apply` (str -> value, Python's own str operations on constant arguments),
+    `ops` (names of the str methods applied)."""
+
+    def __init__(self, group: str, text: str, apply, ops: Tuple[str, ...] = ()):
+        self.group, self.text, self.apply, self.ops = group, text, apply, ops
+
+    def wrap(self, text: str, fn, op: Optional[str] = None) -> '_GroupText':
+        inner = self.apply
+        return _GroupText(self.group, text, lambda v: fn(inner(v)), self.ops + ((op,) if op else ()))
+
+
+class _GroupFlow:
+    """Backward reading of `<m>.group('<g>')` values inside one function:
+    origin(expr) = the ways expr is the text of ONE group, possibly passed
+    through str methods with constant arguments, `or/and <constant>`, a
+    constant subscript, str(), `+ <constant>`, or a local bound to such a
+    value.  None = expr is not group text; an expression that contains a group
+    read in any other shape is an unknown idiom."""
+
+    def __init__(self, p, f: Func, groups: Set[str]):
+        self.p, self.f, self.groups = p, f, groups
+        self.cfg = cfg_of(f, p)
+        self.rd = H.ReachingDefs(self.cfg)
+
+    def group_of(self, e) -> Optional[str]:
+        g = H.TemplateText._group_of(e)
+        return g if g in self.groups else None
+
+    def _const(self, e):
+        v = self.p.fold(self.f.module, e, None, self.f)
+        return v
+
+    def mentions(self, e) -> bool:
+        return any(self.group_of(x) is not None for x in ast.walk(e))
+
+    def origin(self, e, nid: int, depth: int = 0) -> Optional[List[_GroupText]]:
+        if depth > 8:
+            raise UnknownIdiom('%s: chain of locals too long at %s' % (self.f.qual, short(e, 60)))
+        g = self.group_of(e)
+        if g is not None:
+            return [_GroupText(g, '<%s>' % g, lambda v: v)]
+        out = self._origin(e, nid, depth)
+        if out is None and self.mentions(e):
+            raise UnknownIdiom('%s: the group text in `%s` is used in a shape this rule does not read' % (self.f.qual, short(e, 80)))
+        return out
+
+    def _origin(self, e, nid, depth):
+        if isinstance(e, ast.Name):
+            defs = self.rd.at(nid, e.id)
+            outs: List[_GroupText] = []
+            plain = 0
+            for d in defs:
+                val = self.rd.def_value(d, e.id) if d != H.ENTRY_DEF else None
+                o = self.origin(val, d, depth + 1) if val is not None else None
+                if o is None:
+                    plain += 1
+                else:
+                    outs.extend(o)
+            if outs and plain:
+                raise UnknownIdiom('%s: %s is group text on some paths only' % (self.f.qual, e.id))
+            return outs or None
+        if isinstance(e, ast.Call) and isinstance(e.func, ast.Attribute) and not e.keywords:
+            inner = self.origin(e.func.value, nid, depth + 1) if not isinstance(e.func.value, ast.Constant) else None
+            if inner is None:
+                return None
+            m = e.func.attr
+            args = [self._const(a) for a in e.args]
+            if m.startswith('_') or not hasattr(str, m) or any(not isinstance(a, (str, int, type(None))) for a in args):
+                raise UnknownIdiom('%s: `%s` applied to the text of a field-expression group' % (self.f.qual, short(e, 80)))
+
+            def call(v, m=m, args=tuple(args)):
+                r = getattr(v, m)(*args)     # v is a str: a pure str method on constant arguments
+                if not isinstance(r, str):
+                    raise UnknownIdiom('%s: .%s() of group text is not a str' % (self.f.qual, m))
+                return r
+            tail = '.%s(%s)' % (m, ', '.join(repr(a) for a in args))
+            return [o.wrap(o.text + tail if o.text.startswith('<') or o.text.endswith(')') else '(%s)%s' % (o.text, tail), call, m) for o in inner]
+        if isinstance(e, ast.BoolOp):
+            idx = [i for i, x in enumerate(e.values) if not isinstance(x, ast.Constant)]
+            if len(idx) != 1:
+                return None
+            inner = self.origin(e.values[idx[0]], nid, depth + 1)
+            if inner is None:
+                return None
+            is_or = isinstance(e.op, ast.Or)
+            before = [x.value for x in e.values[:idx[0]]]
+            after = [x.value for x in e.values[idx[0] + 1:]]
+
+            def boolop(v, is_or=is_or, before=tuple(before), after=tuple(after)):
+                r = None
+                for x in before + (v,) + after:
+                    r = x
+                    if bool(x) == is_or:
+                        break
+                return r
+            word = ' or ' if is_or else ' and '
+            return [o.wrap('(%s)' % word.join([repr(x) for x in before] + [o.text] + [repr(x) for x in after]), boolop) for o in inner]
+        if isinstance(e, ast.Subscript):
+            inner = self.origin(e.value, nid, depth + 1)
+            if inner is None:
+                return None
+            if isinstance(e.slice, ast.Slice):
+                parts = [None if x is None else self._const(x) for x in (e.slice.lower, e.slice.upper, e.slice.step)]
+                if any(x is not None and not isinstance(x, int) for x in parts):
+                    raise UnknownIdiom('%s: `%s`' % (self.f.qual, short(e, 80)))
+                key = slice(*parts)
+            else:
+                key = self._const(e.slice)
+                if not isinstance(key, int):
+                    raise UnknownIdiom('%s: `%s`' % (self.f.qual, short(e, 80)))
+            return [o.wrap('%s[%s]' % (o.text, short(e.slice, 30)), lambda v, key=key: v[key], 'subscript') for o in inner]
+        if isinstance(e, ast.Call) and isinstance(e.func, ast.Name) and e.func.id == 'str' and len(e.args) == 1 and not e.keywords \
+                and self.p.resolve_expr(self.f.module, e.func, self.f) == 'builtins.str':
+            inner = self.origin(e.args[0], nid, depth + 1)
+            return None if inner is None else [o.wrap('str(%s)' % o.text, str) for o in inner]
+        if isinstance(e, ast.BinOp) and isinstance(e.op, ast.Add):
+            for side, other, left in ((e.left, e.right, True), (e.right, e.left, False)):
+                if isinstance(other, ast.Constant) and isinstance(other.value, str):
+                    inner = self.origin(side, nid, depth + 1)
+                    if inner is not None:
+                        c = other.value
+                        return [o.wrap(('%s + %r' % (o.text, c)) if left else ('%r + %s' % (c, o.text)),
+                                       (lambda v, c=c: v + c) if left else (lambda v, c=c: c + v), 'concat') for o in inner]
+            return None
+        return None
+
+
+def _group_probes(field_src: str) -> Dict[str, List[str]]:
+    """Texts each group of the field pattern can take, from matching the
+    (constant) pattern against sample field expressions: identifiers, case
+    variants and padded forms.  Only the stdlib `re` engine runs."""
+    import re
+    rx = re.compile(field_src)
+    words = ['int', 'x', 'field_1', 'Int', 'UUID', 'a b', '']
+    pads = ['', ' ', '\t', '  ']
+    cands = sorted({l + w + r for w in words for l in pads for r in pads})
+    out: Dict[str, List[str]] = {}
+    for c in cands:
+        for tmpl in ('{%s}', '{x:%s}', '{%s:int}', '{x:%s(1)}', '{x:int(%s)}', '{%s:int(2)}'):
+            m = rx.fullmatch(tmpl % c)
+            if m is None:
+                continue
+            for g, v in m.groupdict().items():
+                if v is not None and v not in out.setdefault(g, []):
+                    out[g].append(v)
+    return out
+
+
+def r16_validated_text_is_stored_text(run):
+    """Two consumers read the groups of the field-expression pattern: the
+    validator (which decides whether add_route accepts the template) and
+    CompiledRouterNode.__init__ (which stores what the generator later uses:
+    the field name, the converter name it looks up in the converter map, the
+    argument string).  For every group both read: whatever text the validator
+    ACCEPTS -- matched against the identifier pattern, found in the converter
+    map -- is the text the node stores.  Both derivations are read backward to
+    the `<match>.group(<name>)` call (through str methods on constants,
+    `or ''`, locals) and evaluated on the texts the pattern can produce; a
+    transformation on one side only (strip / lower / slicing) that lets the
+    validator accept a text the node does not store is a violation; the same
+    transformation on both sides, or one that never changes an accepted text,
+    is silent.  W: validator strips the converter name, the node does not:
+    add_route('/orders/{oid: int}') is accepted, the next compilation raises
+    KeyError(' int') and EVERY lookup on the router fails; with more segments
+    the KeyError escapes insert() after the node was appended (no rollback)."""
+    import re
+    p = run.project
+    # the anchors of the template-text model (field pattern constant, validator, node constructor) without its R9 reading of
+    # the validator, which refuses shapes this rule decides
+    T = H.TemplateText.__new__(H.TemplateText)
+    T.p, T.mod, T.cfg_of = p, p.module(H.MODULE), cfg_of
+    T.node_init = p.func(NODE + '.__init__')
+    T.validator = p.func(ROUTER + '._validate_template_segment')
+    T.add_route = p.func(ROUTER + '.add_route')
+    T.field_const, T.field_src = T._field_pattern()
+    try:
+        T.groupindex = dict(re.compile(T.field_src).groupindex)
+    except re.error as e:
+        raise UnknownIdiom('%s does not compile: %s' % (T.field_const, e))
+    groups = set(T.groupindex)
+    V = _GroupFlow(p, T.validator, groups)
+    N = _GroupFlow(p, T.node_init, groups)
+    run.use_cfg(V.cfg)
+    run.use_cfg(N.cfg)
+    probes = _group_probes(T.field_src)
+
+    # ---- validator: accepting uses
+    vsinks: List[Tuple[str, ast.AST, ast.AST, tuple]] = []   # (kind, sink node, value expr, accept spec)
+    for n in V.cfg.live_nodes():
+        if n.copy:
+            continue
+        for x in n.walk():
+            if isinstance(x, ast.Call) and isinstance(x.func, ast.Attribute) and x.func.attr in ('match', 'fullmatch', 'search') \
+                    and isinstance(x.func.value, ast.Name) and T.regex_const(x.func.value.id) is not None and len(x.args) == 1 and not x.keywords:
+                vsinks.append(('matched against %s' % x.func.value.id, x, x.args[0], ('regex', T.regex_const(x.func.value.id), x.func.attr)))
+            elif isinstance(x, ast.Compare) and len(x.ops) == 1 and isinstance(x.ops[0], (ast.In, ast.NotIn)) \
+                    and _self_attr(x.comparators[0]) is not None:
+                vsinks.append(('looked up in self.%s' % _self_attr(x.comparators[0]), x, x.left, ('member', _self_attr(x.comparators[0]))))
+            elif isinstance(x, ast.Subscript) and _self_attr(x.value) is not None and not isinstance(x.slice, ast.Slice):
+                vsinks.append(('looked up in self.%s' % _self_attr(x.value), x, x.slice, ('member', _self_attr(x.value))))
+            elif isinstance(x, ast.Call) and isinstance(p.callee(T.validator, x), Func) and p.callee(T.validator, x).cls is T.validator.cls \
+                    and isinstance(x.func, ast.Attribute):
+                for a in x.args:
+                    vsinks.append(('passed to %s' % x.func.attr, x, a, ('opaque', x.func.attr)))
+    accepted: Dict[str, List[Tuple[str, ast.AST, _GroupText, tuple]]] = {}
+    for kind, node, val, spec in vsinks:
+        o = V.origin(val, H.node_of_ast(V.cfg, node))
+        for gt in (o or []):
+            accepted.setdefault(gt.group, []).append((kind, node, gt, spec))
+
+    # ---- node constructor: stores
+    stores: Dict[str, List[Tuple[str, ast.AST, _GroupText]]] = {}
+    for n in N.cfg.live_nodes():
+        if n.copy or n.kind != 'stmt':
+            continue
+        a = n.ast
+        items: List[Tuple[str, ast.AST]] = []
+        if isinstance(a, (ast.Assign, ast.AnnAssign)) and a.value is not None:
+            for t in (a.targets if isinstance(a, ast.Assign) else [a.target]):
+                if _self_attr(t) is not None:
+                    items.append(('self.%s' % _self_attr(t), a.value))
+        elif isinstance(a, ast.Expr) and isinstance(a.value, ast.Call) and isinstance(a.value.func, ast.Attribute) \
+                and a.value.func.attr in ('append', 'add', 'insert', 'extend') and _self_attr(a.value.func.value) is not None:
+            for arg in a.value.args:
+                for i, el in enumerate(arg.elts if isinstance(arg, (ast.Tuple, ast.List)) else [arg]):
+                    items.append(('self.%s[..][%d]' % (_self_attr(a.value.func.value), i), el))
+        for where, val in items:
+            o = N.origin(val, n.id)
+            for gt in (o or []):
+                stores.setdefault(gt.group, []).append((where, a, gt))
+    if not stores:
+        raise AnchorError('%s stores no field-expression group' % T.node_init.qual)
+
+    _keys_cache: Dict[str, tuple] = {}
+
+    def accepts(spec, text) -> Optional[bool]:
+        if spec[0] == 'regex':
+            return bool(getattr(re.compile(spec[1]), spec[2])(text))
+        if spec[0] == 'member':
+            if spec[1] not in _keys_cache:
+                _keys_cache[spec[1]] = _converter_keys_proof(p, T, spec[1])
+            _c, pattern, method, _fn = _keys_cache[spec[1]]
+            return bool(getattr(re.compile(pattern), method)(text))
+        return None
+
+    def downstream_ops(attr: str) -> Set[str]:
+        """str-method names called in the functions that read <node>.<attr> (a transformation may be repeated there)."""
+        out: Set[str] = set()
+        for f in p.module(H.MODULE).all_funcs:
+            if f is T.validator or f is T.node_init:
+                continue
+            if any(isinstance(x, ast.Attribute) and x.attr == attr and isinstance(x.ctx, ast.Load) for x in walk_self(f.node)):
+                out |= {x.func.attr for x in walk_self(f.node) if isinstance(x, ast.Call) and isinstance(x.func, ast.Attribute)}
+        return out
+
+    n_ob = 0
+    done: Set[tuple] = set()
+    for g in sorted(stores):
+        for (where, stmt, st) in stores[g]:
+            for (kind, node, acc, spec) in accepted.get(g, []):
+                ident = (g, where, kind, acc.text, st.text)
+                if ident in done:
+                    continue     # the same derivation consumed twice (`x not in self.T` and `self.T[x]`)
+                done.add(ident)
+                n_ob += 1
+                differ = []
+                for v in probes.get(g, []):
+                    try:
+                        a_txt, s_txt = acc.apply(v), st.apply(v)
+                    except UnknownIdiom:
+                        raise
+                    except Exception as e:     # the derivation itself fails on a text the pattern can produce
+                        raise UnknownIdiom('%s: evaluating the derivation of group %r on %r: %s' % (T.validator.qual, g, v, e))
+                    if a_txt != s_txt:
+                        differ.append((v, a_txt, s_txt))
+                bad = []
+                for (v, a_txt, s_txt) in differ:
+                    ok = accepts(spec, a_txt) if isinstance(a_txt, str) else False
+                    if ok is None:
+                        raise UnknownIdiom('%s: group %r is %s as %s but stored as %s in %s; whether a text on which they differ '
+                                           'is accepted is not decided by this rule' % (T.validator.qual, g, kind, acc.text, st.text, where))
+                    if ok:
+                        bad.append('field-expression text %r: the validator accepts %r (%s), the node stores %r' % (v, a_txt, kind, s_txt))
+                if bad:
+                    attr = where.split('.', 1)[1].split('[', 1)[0]
+                    comp = (set(acc.ops) ^ set(st.ops)) & downstream_ops(attr)
+                    if comp:
+                        raise UnknownIdiom('%s: group %r is %s as %s but stored as %s; a reader of <node>.%s also applies %s -- '
+                                           'compensation downstream is not modelled' % (T.validator.qual, g, kind, acc.text, st.text, attr,
+                                                                                        ', '.join(sorted(comp))))
+                side = T.validator if acc.ops or acc.text != '<%s>' % g else T.node_init
+                run.check(not bad, 'group %r of a field expression: the text the validator accepts (%s) is the text CompiledRouterNode stores '
+                          'in %s (%d texts the pattern can produce evaluated)' % (g, kind, where, len(probes.get(g, []))),
+                          side, 'group %s: %s as %s / stored in %s as %s' % (g, kind, acc.text, where, st.text),
+                          where=(T.validator.loc(node) if side is T.validator else T.node_init.loc(stmt)),
+                          witness=bad[:6] if bad else None,
+                          runtime_witness="add_route('/orders/{oid: int}') is accepted; the generator looks up the stored text: KeyError(' int') at "
+                                          'the next compilation, every lookup on the router fails (and a longer template leaves half a branch behind)')
+    if n_ob == 0:
+        raise AnchorError('%s and %s share no field-expression group that is both checked and stored' % (T.validator.qual, T.node_init.qual))
+
+
 def check(run):
     run.assume('a rejection is an exception in the E5 summary of add_route (explicit raises, closed over resolved callees); '
                'other exceptions (IndexError, MemoryError, ...) are internal errors, not rejections')
@@ -2951,4 +3412,6 @@ def check(run):
     run.rule('R10', r10_finder_invalidated, 'every accepted add_route invalidates or rebuilds the compiled finder', floor=3)
     run.rule('R13', r13_builtin_converters, 'built-in converters veto exactly what their conversion primitive, documented options and tabled screening veto', floor=10)
     run.rule('R14', r14_find_segments, "find() hands the finder uri.lstrip('/').split('/') unchanged", floor=1)
+    run.rule('R16', r16_validated_text_is_stored_text, 'the text of a field-expression group that the validator accepts is the text CompiledRouterNode stores', floor=3)
+    run.rule('R15', r15_multi_segment_flag, 'the multi-segment decision is the CONSUME_MULTIPLE_SEGMENTS attribute of the registered converter, whatever its type', floor=2)
     run.rule('R9', r9_rendered_text, 'template-derived text reaches a line of the generated source only validated, converted (!r), or as int / generated name', floor=28)
